@@ -25,6 +25,11 @@ func (it *Iterator) SeekToFirst() {
 	it.mu.Lock()
 	defer it.mu.Unlock()
 
+	it.seekToFirstLocked()
+}
+
+// seekToFirstLocked is SeekToFirst for callers that already hold it.mu
+func (it *Iterator) seekToFirstLocked() {
 	// Reset error state
 	it.err = nil
 
@@ -146,8 +151,9 @@ func (it *Iterator) Next() bool {
 	defer it.mu.Unlock()
 
 	if !it.initialized {
-		it.SeekToFirst()
-		return it.Valid()
+		// it.mu is held and not reentrant: SeekToFirst and Valid would block forever
+		it.seekToFirstLocked()
+		return it.dataBlockIter != nil && it.dataBlockIter.Valid()
 	}
 
 	if it.dataBlockIter == nil {
